@@ -194,8 +194,12 @@ def _collect(fi, inline_depth=60, keep=()):
             return terminates(last.body) and terminates(last.orelse)
         return False
 
-    def visit(stmts, ctx):
+    def visit(stmts, ctx, loop_body=False, drop_tail_continue=False):
         ctx = list(ctx)
+        if (loop_body or drop_tail_continue) and stmts and isinstance(stmts[-1], ast.Continue):
+            # `continue` as the last statement of an iteration, or of a branch sitting directly in the loop body (what follows
+            # the branch is placed under the negated test below), skips nothing that the contexts do not already say
+            stmts = stmts[:-1]
         for s in stmts:
             if isinstance(s, ast.AnnAssign) and s.value is not None:
                 s2 = ast.Assign(targets=[s.target], value=s.value, lineno=s.lineno, col_offset=s.col_offset)
@@ -204,8 +208,8 @@ def _collect(fi, inline_depth=60, keep=()):
                 s = s2
             if isinstance(s, ast.If):
                 t_in = inl(s.test, s.test)
-                visit(s.body, ctx + [('if', t_in)])
-                visit(s.orelse, ctx + [('ifnot', t_in)])
+                visit(s.body, ctx + [('if', t_in)], drop_tail_continue=loop_body)
+                visit(s.orelse, ctx + [('ifnot', t_in)], drop_tail_continue=loop_body)
                 # `if c: return ...` followed by the rest  ==  `if c: return ... else: rest`
                 if terminates(s.body) and not terminates(s.orelse):
                     ctx = ctx + [('ifnot', t_in)]
@@ -213,10 +217,10 @@ def _collect(fi, inline_depth=60, keep=()):
                     ctx = ctx + [('if', t_in)]
             elif isinstance(s, ast.For):
                 c = ('for', copy_ast(s.target), inl(s.iter, s))
-                visit(s.body, ctx + [c])
+                visit(s.body, ctx + [c], loop_body=True)
                 visit(s.orelse, ctx)
             elif isinstance(s, ast.While):
-                visit(s.body, ctx + [('while', inl(s.test, s.test))])
+                visit(s.body, ctx + [('while', inl(s.test, s.test))], loop_body=True)
             elif isinstance(s, ast.Try):
                 visit(s.body, ctx + [('try', ast.Constant(value=None))])
                 for h in s.handlers:
